@@ -69,6 +69,10 @@ def script_text(i, case, dirs):
     if fl & 2:
         L.append("_res('executable', ['prog_%d'], executable('prog_%d', "
                  "['m_%d.c']))" % (i, i, i))
+        # ... and the objects of a program with an explicit intermediate_dir
+        L.append("_res('intdir_object', ['obj_%d', 'x'], executable("
+                 "'progi_%d', ['m_%d.c'], intermediate_dir='obj_%d')"
+                 ".creator.files[0])" % (i, i, i, i))
     if fl & 4:
         L.append("_res('static_library', ['l_%d'], static_library('l_%d', "
                  "['n_%d.c']))" % (i, i, i))
